@@ -106,6 +106,14 @@ func newSimApp(script string, seed int64) *simApp {
 			})
 			return nil
 		}),
+		// stopscope ends the command's scope without an error (Stop, not Kill): what follows in
+		// the script may be skipped, but nothing failed
+		mk("stopscope", func(ctx app.IOContext) error {
+			id, _ := arg(ctx)
+			sa.log("stopscope", id)
+			ctx.Scope().Stop()
+			return nil
+		}),
 		mk("fail", func(ctx app.IOContext) error {
 			id, _ := arg(ctx)
 			sa.log("fail", id)
